@@ -79,8 +79,9 @@ def token_roundtrip_worker(args):
                         out['bad'].append(dict(ob='token-roundtrip', key='token:changed', hex=b.hex(), text=b.decode('utf-8', 'replace'), printed=txt))
                     out['checked'] += 1
         out['queries'] = M.nq
-    except mirx.Unsupported as e:
-        out['error'] = 'unsupported: ' + str(e)
+    except Exception as e:
+        import traceback
+        out['error'] = ('unsupported: ' + str(e)) if isinstance(e, mirx.Unsupported) else ('internal error in the check machinery: ' + repr(e) + ' | ' + traceback.format_exc()[-700:])
     out['wall'] = round(_t.time() - t0, 1)
     return out
 
